@@ -29,10 +29,10 @@ func TestMain(m *testing.M) { pbt.Main(m, run) }
 // ---------- (a) the worker task queue with an instrumented executor ----------
 
 type QOp struct {
-	K string `json:"k"` // push remove finish tick
-	P int    `json:"p"` // peer
-	T int    `json:"t"` // for remove / finish: index among that peer's pending / the running tasks
-	Pr int   `json:"pr"`
+	K  string `json:"k"` // push remove finish tick
+	P  int    `json:"p"` // peer
+	T  int    `json:"t"` // for remove / finish: index among that peer's pending / the running tasks
+	Pr int    `json:"pr"`
 }
 
 type QCase struct {
@@ -361,5 +361,6 @@ func TestReplay(t *testing.T) {
 	outerT = t
 	pbt.Register(run, defQ)
 	pbt.Register(run, defDuo)
+	pbt.Register(run, defLife)
 	run.Replay(t)
 }
